@@ -341,7 +341,7 @@ pub fn run(ck: &mut Check) {
          Oracle: hand-written SHA-256/base64 (self-tested against ring) over the reference canonical JSON of the reference-redacted event. Non-trivial = event with non-empty content and unsigned, or any mutation/boundary case.",
     );
     ck.assume("v11 member events whose third_party_invite lacks `signed`: reference hash not asserted (redaction corner left open by the spec)");
-    let n = ck.n(40_000, 1_500_000);
+    let n = ck.n(150_000, 1_500_000);
     let mutation = || {
         prop_oneof![
             1 => Just(Mutation::None),
@@ -356,7 +356,7 @@ pub fn run(ck: &mut Check) {
         ]
     };
     ck.prop("hashes_and_mutations", n, move || (pdu::pdu(), mutation(), any::<bool>(), any::<bool>()).prop_map(|(pdu, mutation, with_hashes, with_signatures)| HashCase { pdu, mutation, with_hashes, with_signatures }), oracle);
-    let n = ck.n(600, 20_000);
+    let n = ck.n(2_000, 20_000);
     ck.prop(
         "size_limit_boundary",
         n,
